@@ -499,7 +499,7 @@ func (cfg *Config) varInd(vr Variable, idx syntax.ArithmExpr) (string, bool, err
 			}
 			return strings.Join(strs, " "), vr.IsSet(), nil
 		}
-		val, err := Literal(cfg, idx.(*syntax.Word))
+		val, err := cfg.assocKey(idx)
 		if err != nil {
 			return "", false, err
 		}
@@ -507,6 +507,17 @@ func (cfg *Config) varInd(vr Variable, idx syntax.ArithmExpr) (string, bool, err
 		return str, ok, nil
 	}
 	return "", false, nil
+}
+
+// assocKey returns the key that the index of an associative array element
+// stands for. The parser reads any index as an arithmetic expression, and only
+// those it left as a plain word can be used as a key.
+func (cfg *Config) assocKey(idx syntax.ArithmExpr) (string, error) {
+	word, ok := idx.(*syntax.Word)
+	if !ok {
+		return "", fmt.Errorf("unsupported key for an associative array")
+	}
+	return Literal(cfg, word)
 }
 
 // assignElem assigns a variable via an expansion like ${a=val} or
@@ -533,7 +544,7 @@ func (cfg *Config) assignElem(name string, vr Variable, idx syntax.ArithmExpr, v
 		key := "0"
 		if idx != nil {
 			var err error
-			if key, err = Literal(cfg, idx.(*syntax.Word)); err != nil {
+			if key, err = cfg.assocKey(idx); err != nil {
 				return err
 			}
 		}
